@@ -245,7 +245,7 @@ var pKinds = []pKind{
 	{"MPU-complete-onto", false}, {"DELETE", false}, {"DELETE-marker-versioned", true}, {"DELETE-version-promote", true},
 	{"GET", false}, {"HEAD", false},
 }
-var oKinds = []string{"GET", "HEAD", "PUT", "DELETE", "LIST"}
+var oKinds = []string{"GET", "HEAD", "PUT", "DELETE", "LIST", "GETV"}
 
 type laneA struct {
 	c     *ev.Ctx
@@ -268,6 +268,8 @@ func (l *laneA) bucket(versioned bool) string {
 }
 
 type prepared struct {
+	stableVid   string // a version id that the operation never deletes ...
+	stableWid   int    // ... and the write it must keep returning
 	bucket, key string
 	seedW       int // state before P (0 = absent)
 	run         func(cl *s3c.Client) *s3c.Resp
@@ -285,6 +287,10 @@ func (l *laneA) prepare(p pKind, key string) (*prepared, error) {
 		r := cl.PutObject(b, key, w.body, w.hdr()...)
 		if !r.OK() {
 			return fmt.Errorf("seed put: %s", r)
+		}
+		if vid := r.Header.Get("X-Amz-Version-Id"); vid != "" && p.versioned && pr.stableVid == "" {
+			// the first seeded version of a versioned case is never deleted by the operation under test
+			pr.stableVid, pr.stableWid = vid, w.id
 		}
 		return nil
 	}
@@ -461,6 +467,9 @@ func (l *laneA) oneCase(id string, p pKind, j int, wantName string, o string, pl
 	if pr.seedW != 0 {
 		hist = append(hist, histOp{Who: "seed", In: opIn{Kind: "put", W: pr.seedW, Name: "seed"}, Out: opOut{Ack: true}, Call: 0, Ret: 1})
 	}
+	if o == "GETV" && pr.stableVid == "" {
+		return
+	}
 	pol, seen := gate.HoldNth(j)
 	l.ctl.SetPolicy(pol)
 	type pres struct {
@@ -512,6 +521,11 @@ func (l *laneA) oneCase(id string, p pKind, j int, wantName string, o string, pl
 	case "LIST":
 		oObs, oResp = l.listRead(ocl, b, key)
 		oOp.In = opIn{Kind: "read", Name: "LIST"}
+	case "GETV":
+		// read of an older version by id while P runs: it must stay readable and intact throughout
+		oResp = ocl.Do(&s3c.Req{Method: "GET", Path: s3c.ObjPath(b, key), Query: s3c.Q("versionId", pr.stableVid), FreshConn: true})
+		oObs = l.ws.judgeRead(oResp, false)
+		oOp.In = opIn{Kind: "read", Name: "GETV"}
 	case "PUT":
 		oW = l.ws.mk(false)
 		h2 := s3c.H{}
@@ -582,6 +596,23 @@ func (l *laneA) oneCase(id string, p pKind, j int, wantName string, o string, pl
 		// P itself failed: allowed only if it then had no effect; keep it in the history as not acknowledged
 		detail["note"] = "P was refused"
 		c.Observe(fmt.Sprintf("%s refused when %s ran at %s: %s", p.name, o, wantName, pr1.r))
+	}
+	if o == "GETV" {
+		c.Distinct(fmt.Sprintf("A|%s|%s|%s|%s|%s", l.cfg.name, p.name, wantName, o, placeName))
+		switch {
+		case oObs.Torn != "":
+			viol("version-read-torn", oObs.Torn)
+		case oObs.Refused || oObs.Wid == 0:
+			viol("older-version-unreadable", fmt.Sprintf("GET ?versionId=%s answered %s while %s was in flight", pr.stableVid, oResp, p.name))
+		case oObs.Wid != pr.stableWid:
+			viol("version-read-wrong-write", fmt.Sprintf("GET ?versionId=%s returned write %d, that version is write %d", pr.stableVid, oObs.Wid, pr.stableWid))
+		}
+		// after P returned the version must still be there
+		fr := l.cl[1-place].GetObjectV(b, key, pr.stableVid)
+		if fo := l.ws.judgeRead(fr, false); fo.Wid != pr.stableWid {
+			viol("older-version-unreadable-afterwards", fmt.Sprintf("%s %s", fr, fo.Torn))
+		}
+		return
 	}
 	if oOp.In.Kind == "read" {
 		if oObs.Torn != "" {
